@@ -25,6 +25,9 @@ IsFailureX(conds, r, e) ==
 \* abort / cancel conditions as the code evaluates them (a result registration ignores the error)
 AbortsCode(conds, r, e) == \E c \in conds : MatchesX(c, r, e) \/ (c.t = "result" /\ r = c.v)
 
+\* a breaker's delay function: the open delay it computes for the failure that trips the breaker (units), -1: none / defer to WithDelay
+DfnOf(p) == IF "dfn" \in DOMAIN p THEN p.dfn ELSE -1
+
 \* bursty rate limiter used sequentially without waiting: m permits per period of `per` units (0: one endless period),
 \* periods counted from the limiter's creation at time 0; state = [per: current period, left: permits left in it]
 RlRoll(p, st, now) == LET pi == IF p.per = 0 THEN 0 ELSE now \div p.per IN
